@@ -148,6 +148,12 @@ func c18random(c *ctx, k int, forced string) c18trace {
 		sch = append(sch, raterun.Schedule{StartDelay: d, Frequency: f})
 		tr.Sched = append(tr.Sched, []int64{d.Microseconds(), f.Microseconds()})
 	}
+	if forced == "restart-in-first" {
+		// Restart while the FIRST schedule is the active one and the second has not started yet: the second schedule's
+		// start delay counts from the restart
+		sch = []raterun.Schedule{{StartDelay: 0, Frequency: 5 * time.Millisecond}, {StartDelay: 70 * time.Millisecond, Frequency: 7017 * time.Microsecond}}
+		tr.Sched = [][]int64{{0, 5000}, {70000, 7017}}
+	}
 	rec := &c18rec{t0: time.Now()}
 	fnDur := time.Duration(c.rng.Intn(3000)) * time.Microsecond
 	var slowOnce atomic.Bool
@@ -186,6 +192,21 @@ func c18random(c *ctx, k int, forced string) c18trace {
 		rn.Stop()
 		rec.add(rEv{K: "stopret", C: rec.us()})
 		time.Sleep(150 * time.Millisecond)
+		rec.add(rEv{K: "after", D: int64(maxInt(c18leaks()-g0, 0))})
+		rec.mu.Lock()
+		tr.Ev = rec.ev
+		rec.mu.Unlock()
+		return tr
+	}
+	if forced == "restart-in-first" {
+		time.Sleep(35 * time.Millisecond)
+		rec.add(rEv{K: "restart", C: rec.us()})
+		rn.Restart()
+		time.Sleep(130 * time.Millisecond)
+		rec.add(rEv{K: "stopcall", C: rec.us()})
+		rn.Stop()
+		rec.add(rEv{K: "stopret", C: rec.us()})
+		time.Sleep(120 * time.Millisecond)
 		rec.add(rEv{K: "after", D: int64(maxInt(c18leaks()-g0, 0))})
 		rec.mu.Lock()
 		tr.Ev = rec.ev
@@ -279,6 +300,10 @@ func init() {
 			}(k)
 		}
 		wg.Wait()
+		// (after the random ones, so that their draws are what they were)
+		for k := 0; k < c.pick(2, 6); k++ {
+			w.write(c18random(c, n+k, "restart-in-first"))
+		}
 		fmt.Println("c18 traces:", w.n)
 		return nil
 	})
